@@ -151,13 +151,19 @@ def hook(ex, func, argv, frame):
         return True, NoneV()
     if re.match(r'^<\[u8; \d+\] as std::ops::Index>::index$', g) or (g in ('<[u8] as std::ops::Index>::index', '<[T] as std::ops::Index>::index') and isinstance(deref(a[0]) if isinstance(a[0], Ref) else a[0], Tuple)):
         s = deref(a[0]) if isinstance(a[0], Ref) else a[0]
-        s = ArrSlice(s.items) if isinstance(s, Tuple) else s
         r = a[1]
         start = r.get('start') if 'start' in r.names else 0
         end = r.get('end') if 'end' in r.names else len(s.items)
+        if isinstance(s, Tuple) and not (is_c(start) and is_c(end)):
+            return False, None          # symbolic window of a fixed array: models_v2 (no per-length case split)
+        s = ArrSlice(s.items) if isinstance(s, Tuple) else s
         if not ex.branch(and_(le(start, end), le(end, len(s.items)))):
             raise Panic('slice index out of range')
         return True, slice_from(ex, slice_to(ex, s, end), start)
+    if g == '<std::io::Error as std::convert::From>::from' and 'ErrorKind' in f:
+        return True, Opaque('ioerror', k=a[0])
+    if g == 'std::io::Error::new' or g == 'std::io::Error::other':
+        return True, Opaque('ioerror', k=a[0])
     if g == '<std::io::ErrorKind as std::convert::Into>::into' or (g.endswith('as std::convert::Into>::into') and 'ErrorKind' in f):
         return True, Opaque('ioerror', k=a[0])
     if g == '<std::vec::Vec as std::default::Default>::default':
@@ -222,7 +228,9 @@ def hook(ex, func, argv, frame):
         return True, deref_len(a[0])
     if g in ('core::slice::<impl [u8]>::copy_from_slice', 'core::slice::<impl [T]>::copy_from_slice'):
         view, src = a
-        if not isinstance(view, VecView) or not isinstance(src, ArrSlice):
+        if not isinstance(view, VecView):
+            return False, None          # array views: models_v2
+        if not isinstance(src, ArrSlice):
             raise Unsupported('copy_from_slice operands')
         if not ex.branch(eq(view.len(), len(src.items))):
             raise Panic('copy_from_slice: source slice length does not match destination')
